@@ -23,23 +23,6 @@ def loopStmt : Stmt :=
 
 theorem body_eq : body = TJ.Gen.MiniC.Fallback.seqs [.assign 2 (.var 0), loopStmt] := rfl
 
-theorem mkPtr_succ (b off : Nat) : mkPtr b off + 1 = mkPtr b (off + 1) := by unfold mkPtr; omega
-
-theorem mkPtr_lt (b off : Nat) (hb : b < 2 ^ 30) (ho : off < ptrBase) : mkPtr b off < 18446744073709551616 := by
-  unfold mkPtr ptrBase at *; omega
-
-theorem castVal_u32_i32_zero : castVal .u32 .i32 0 = 0 := rfl
-theorem castVal_u8_i32_zero : castVal .u8 .i32 0 = 0 := rfl
-
-/-- evaluation rules used between unfoldings of `exec` (never `exec` itself: each `rw [exec]` unfolds exactly the
-    statement that is executed next) -/
-macro "ev" : tactic => `(tactic| simp only [evalE, List.getElem?_toArray, List.getElem?_cons_succ, List.getElem?_cons_zero,
-  reduceCtorEq, if_false, if_true, BinOp.needsPub2, BinOp.needsPub1, Bool.false_and, Bool.true_and, Bool.or_self, Bool.or_false,
-  Bool.false_eq_true, binVal, unVal, castVal_u32_i32_zero, castVal_u8_i32_zero, Ty.signed, Ty.bits, Ty.bytes, Ty.half, Ty.modulus, Lab.join, setVar, b2n,
-  gt_iff_lt, Nat.lt_irrefl, Nat.zero_lt_succ,
-  List.setIfInBounds_toArray, List.set_cons_succ, List.set_cons_zero, ne_eq, not_true_eq_false, not_false_eq_true, bne_iff_ne,
-  decide_not, decide_true, decide_false, Bool.not_true, Bool.not_false])
-
 /-- one iteration: store a zero byte at offset `o`, advance the pointer, decrement the count.
     Fuel levels are separate variables (`f7 = Fu f6`, …) opened at the rewritten occurrence only. -/
 theorem loop_step (prog : Program) (f0 f1 f2 f3 f4 f5 f6 f7 k : Nat) (h7 : f7 = Fu f6) (h6 : f6 = Fu f5) (h5 : f5 = Fu f4)
